@@ -52,7 +52,7 @@ theorem tf_opt_int (name : String) (tg w : Nat) (hrep : tagRepresentable tg) (o 
       q.v = optNumVal o ∧ q.bytes.length ≤ 2 + w := by
   cases o with
   | none =>
-    refine ⟨⟨.mk name (some tg) .empty .dflt (.opt (.int w)), tg, .none, [], false⟩, ⟨rfl, by simp [Field.ty, Ty.ser], ?_⟩, rfl, rfl, rfl, by simp⟩
+    refine ⟨⟨.mk name (some tg) .empty .dflt (.opt (.int w)), tg, .none, [], false, true⟩, ⟨rfl, by simp [Field.ty, Ty.ser], ?_⟩, rfl, rfl, rfl, by simp⟩
     simp [Field.ty, Ty.isOptional, Ty.dflt]
   | some n =>
     have hn := ho n rfl
@@ -63,10 +63,10 @@ theorem tf_opt_int (name : String) (tg w : Nat) (hrep : tagRepresentable tg) (o 
       simp only [Bool.false_eq_true, if_false, tagPrefix, intEncode] at hs hd hb
       subst hb
       exact ⟨hs, hd⟩
-    refine ⟨⟨.mk name (some tg) .empty .dflt (.opt (.int w)), tg, .some (.num n), tagEncDefault tg ++ leBytes w n, true⟩, ⟨rfl, ?_, ?_⟩, rfl, rfl, rfl, ?_⟩
+    refine ⟨⟨.mk name (some tg) .empty .dflt (.opt (.int w)), tg, .some (.num n), tagEncDefault tg ++ leBytes w n, true, true⟩, ⟨rfl, ?_, ?_⟩, rfl, rfl, rfl, ?_⟩
     · simp only [Field.ty, Field.len, Field.enc, Ty.ser]; exact (key []).1
     · simp only [if_true, Field.ty, Field.len, Field.enc]
-      refine ⟨by simp [tagEnc_ne_nil], fun x => ⟨⟨leBytes w n ++ x, by rw [List.append_assoc]; exact tagDec_tagEnc tg hrep _⟩, ?_⟩⟩
+      refine ⟨by simp [tagEnc_ne_nil], fun x => ⟨leBytes w n ++ x, by rw [List.append_assoc]; exact tagDec_tagEnc tg hrep _⟩, fun x _ => ?_⟩
       have hk := (key x).2
       simp only [Ty.de] at hk ⊢
       rw [hk]
@@ -81,7 +81,7 @@ theorem tf_opt_bcd_fixed (name : String) (tg N w : Nat) (hrep : tagRepresentable
       q.v = optNumVal o ∧ q.bytes.length ≤ 2 + N := by
   cases o with
   | none =>
-    refine ⟨⟨.mk name (some tg) (.fixed N) .bcd (.opt (.int w)), tg, .none, [], false⟩, ⟨rfl, by simp [Field.ty, Ty.ser], ?_⟩, rfl, rfl, rfl, by simp⟩
+    refine ⟨⟨.mk name (some tg) (.fixed N) .bcd (.opt (.int w)), tg, .none, [], false, true⟩, ⟨rfl, by simp [Field.ty, Ty.ser], ?_⟩, rfl, rfl, rfl, by simp⟩
     simp [Field.ty, Ty.isOptional, Ty.dflt]
   | some n =>
     obtain ⟨hn, hN⟩ := ho n rfl
@@ -99,10 +99,10 @@ theorem tf_opt_bcd_fixed (name : String) (tg N w : Nat) (hrep : tagRepresentable
       subst hb
       exact ⟨hs, hd⟩
     refine ⟨⟨.mk name (some tg) (.fixed N) .bcd (.opt (.int w)), tg, .some (.num n),
-      tagEncDefault tg ++ (List.replicate (N - (bcdEncK n).length) 0 ++ bcdEncK n), true⟩, ⟨rfl, ?_, ?_⟩, rfl, rfl, rfl, ?_⟩
+      tagEncDefault tg ++ (List.replicate (N - (bcdEncK n).length) 0 ++ bcdEncK n), true, true⟩, ⟨rfl, ?_, ?_⟩, rfl, rfl, rfl, ?_⟩
     · simp only [Field.ty, Field.len, Field.enc, Ty.ser]; exact (key []).1
     · simp only [if_true, Field.ty, Field.len, Field.enc]
-      refine ⟨by simp [tagEnc_ne_nil], fun x => ⟨⟨_, by rw [List.append_assoc]; exact tagDec_tagEnc tg hrep _⟩, ?_⟩⟩
+      refine ⟨by simp [tagEnc_ne_nil], fun x => ⟨_, by rw [List.append_assoc]; exact tagDec_tagEnc tg hrep _⟩, fun x _ => ?_⟩
       have hk := (key x).2
       simp only [Ty.de] at hk ⊢
       rw [hk]
